@@ -125,11 +125,13 @@ package datafile
 //@   requires [inv-df]  df.ReadWriter != nil && df.lastBlockSize < 32768 && df.lastBlockID <= 1073741824
 //@   requires [offset]  offset < 32768
 //@   ensures [buf-own]  arr(buf.B) == old(arr(buf.B)) || fresh(buf.B)
+//@   ensures [eof-at-end] blockID * 32768 >= df.lastBlockID * 32768 + df.lastBlockSize ==> result == io.EOF
 //@   ensures [foreign-errors] !engineErr(result)
 //@   assume  [crc-authenticates-log-payload] result == nil && df.kind == DataFileSuffix && old(len(buf.B)) == 0 ==> isRec(content(buf.B), off(buf.B), len(buf.B))
 //@   modifies buf.B, buf.B[*]
 //@   loop 1
 //@     invariant [bound]   blockID <= df.lastBlockID + 1 && offset < 32768
+//@     invariant [first]   old(blockID) * 32768 < df.lastBlockID * 32768 + df.lastBlockSize || blockID == old(blockID)
 //@     invariant [block]   len(block) == 32768
 //@     invariant [buf-own] arr(buf.B) == old(arr(buf.B)) || fresh(buf.B)
 
@@ -160,11 +162,15 @@ package datafile
 //@   ensures [durable] result1 == nil ==> result0.ReadWriter.durable == result0.ReadWriter.size && fresh(result0.ReadWriter) && len(result0.bufferedWrites) == 0 && arr(result0.bufferedWrites) == 0 && fresh(result0.headerBuf) && owned(result0.headerBuf) && result0.ReadWriter.writes == 0
 //@   ensures [err]     result1 != nil ==> result0 == nil
 //@   ensures [foreign-errors] !engineErr(result1)
+//@   assume  [fs-open-creates] result1 == nil ==> fs[fname(dirPath, id, suffix)] != 0 && (old(fs)[fname(dirPath, id, suffix)] != 0 ==> fs == old(fs)) && fs == store(old(fs), fname(dirPath, id, suffix), fs[fname(dirPath, id, suffix)])
+//@   assume  [fs-open-failed]  result1 != nil ==> fs == old(fs)
+//@   io_effect
 //@   modifies nothing
 
 //@ func datafile.GetFileName
 //@   trusted
 //@   pure
+//@   ensures [name] result == fname(dirPath, id, suffix)
 
 // ---------------------------------------------------------------------------------------------
 // Record codecs
@@ -356,3 +362,26 @@ package datafile
 //@   inline
 //@ func (*datafile.DataFile).Close
 //@   inline
+
+// ---------------------------------------------------------------------------------------------
+// Merge-finished marker: framed like a record; payload = first file id that did not take part (4 bytes LE)
+// followed by the number of files the merge produced (4 bytes LE)
+// ---------------------------------------------------------------------------------------------
+
+//@ func (*datafile.DataFile).WriteMergeFinRecord
+//@   props C06 C07 C11
+//@   requires [inv-df] INV_df(df)
+//@   ensures [inv-df]  INV_df(df)
+//@   ensures [closed]  old(df.closed) ==> result == ErrClosed && df.ReadWriter.size == old(df.ReadWriter.size)
+//@   ensures [framed]  result == nil ==> df.ReadWriter.size == old(df.ReadWriter.size) + occupied(8, old(df.lastBlockSize)) && df.ReadWriter.writes == old(df.ReadWriter.writes) + 1
+//@   ensures [err]     result != nil ==> df.ReadWriter.size == old(df.ReadWriter.size)
+//@   ensures [foreign-errors] !engineErr(result)
+//@   modifies df.lastBlockID, df.lastBlockSize, df.headerBuf[*], df.ReadWriter.size, df.ReadWriter.data, df.ReadWriter.writes
+
+//@ func (*datafile.DataFile).ReadMergeFinRecord
+//@   props C06 C07 C12
+//@   requires [inv-df] INV_df(df)
+//@   ensures [closed]  old(df.closed) ==> result0 == 0 && result1 == 0
+//@   ensures [empty-file-reads-zero] df.ReadWriter.size == 0 ==> result0 == 0 && result1 == 0
+//@   ensures [fs-kept] fs == old(fs)
+//@   modifies nothing
